@@ -940,7 +940,8 @@ MANIFEST = {
             'an absolutely positioned box is its final padding box; the absolute constraint equations (CSS 2.1 10.3.7 / 10.6.4 / 10.3.8 / '
             '10.6.5) for every auto pattern in ltr and rtl without exception, static positions, centring, shrink-to-fit, '
             'min/max re-entry, and the same equations for the document-level function absolute_box_layout + absolute_block '
-            '(percentages, paddings, borders, min/max-width); absolute_replaced total with exact halves; relative positioning is a translation by the '
+            '(percentages, paddings, borders, min/max-width) and absolute_box_layout + absolute_replaced (used offsets, '
+            'ignored offset when nothing is auto, static position); absolute_replaced total with exact halves; relative positioning is a translation by the '
             'CSS 2.1 offset and the identity elsewhere.',
     'note': 'Trusted: Lean kernel, the hand transcription of the Python functions (tied only by the correspondence), the '
             'AST translator of the three float tests, mock boxes. Partial: the content of a line (Pango) is a parameter of '
